@@ -418,7 +418,26 @@ func (s *snapper) enum(ed protoreflect.EnumDescriptor, pos int, byName protorefl
 	for i := 0; i < vs.Len(); i++ {
 		e.RNP = append(e.RNP, SNameProbe{string(vs.Get(i).Name()), rn.Has(vs.Get(i).Name())})
 	}
-	e.Miss = vs.ByName(absentName) == nil && vs.ByNumber(-1234567) == nil && !rn.Has(absentName) && !rr.Has(-1234567)
+	// a number that is neither a value nor inside a listed reserved range
+	absent := protoreflect.EnumNumber(-1234567)
+	for _, c := range []protoreflect.EnumNumber{-1234567, 1234567, 7654321, -7654321, 2147483000, -2147483000, 31, -31} {
+		free := true
+		for i := 0; i < rr.Len(); i++ {
+			if r := rr.Get(i); r[0] <= c && c <= r[1] {
+				free = false
+			}
+		}
+		for i := 0; i < vs.Len(); i++ {
+			if vs.Get(i).Number() == c {
+				free = false
+			}
+		}
+		if free {
+			absent = c
+			break
+		}
+	}
+	e.Miss = vs.ByName(absentName) == nil && vs.ByNumber(absent) == nil && !rn.Has(absentName) && !rr.Has(absent)
 	return e
 }
 
